@@ -90,7 +90,9 @@ def battery(d, tag, nodes, links, recs, reads, gs, fs, block, eol="\n"):
     write_text(gfa, gfa_text(nodes, links, True), "gz" if fs == "gz" else "plain")
     raw = os.path.join(d, f"{tag}_raw.gfa" + (".gz" if fs == "gz" else ""))
     write_text(raw, gfa_text(nodes, links, False), "gz" if fs == "gz" else "plain")
-    gaf = os.path.join(d, f"{tag}.gaf" + (".gz" if bg else ""))
+    # the plain GAF and its BGZF copy sit side by side under one name (in.gaf / in.gaf.gz), as they do for a user who
+    # compresses a file next to the original; every derived file of a configuration carries its tag
+    gaf = os.path.join(d, "in.gaf" + (".gz" if bg else ""))
     write_text(gaf, "\n".join(recs) + eol, gs, block=block)      # eol "": the last record is not newline-terminated
     fa = os.path.join(d, f"{tag}.fa")
     with open(fa, "w") as f:
@@ -103,7 +105,10 @@ def battery(d, tag, nodes, links, recs, reads, gs, fs, block, eol="\n"):
     # index + view
     r = run_cli(["index", gaf, gfa])
     val, okall = [], True
-    if r["status"] == "ok":
+    if r["status"] == "ok" and not os.path.exists(gaf + ".gvi"):
+        # the index is not where the documentation says it is written (<GAF>.gvi): nothing to resolve, reported as such
+        val, okall = ["no index file at the documented default location"], False
+    elif r["status"] == "ok":
         ind = load_pickle(gaf + ".gvi")
         for key in sorted(k for k in ind if k != "ref_contig"):
             nm, ok = names_at(gaf, ind[key], bg)
@@ -125,7 +130,9 @@ def battery(d, tag, nodes, links, recs, reads, gs, fs, block, eol="\n"):
         put("view_unstable", r, open(o).read() if os.path.exists(o) else "")
         r = run_cli(["index", st2, gfa])
         val, okall = [], True
-        if r["status"] == "ok":
+        if r["status"] == "ok" and not os.path.exists(st2 + ".gvi"):
+            val, okall = ["no index file at the documented default location"], False
+        elif r["status"] == "ok":
             ind = load_pickle(st2 + ".gvi")
             for key in sorted(k for k in ind if k != "ref_contig"):
                 nm, ok = names_at(st2, ind[key], bg)
@@ -137,7 +144,9 @@ def battery(d, tag, nodes, links, recs, reads, gs, fs, block, eol="\n"):
         o = os.path.join(d, f"{tag}_sorted{int(ob)}.gaf" + (".gz" if ob else ""))
         r = run_cli(["sort", gaf, gfa, "--outgaf", o] + (["--bgzip"] if ob else []))
         val, ok = "", True
-        if r["status"] == "ok":
+        if r["status"] == "ok" and not (os.path.exists(o) and os.path.exists(o + ".gsi")):
+            val, ok = ["sorted file or its .gsi missing"], False
+        elif r["status"] == "ok":
             val = [read_text(o)]
             g = load_pickle(o + ".gsi")
             for ctg in sorted(g):
@@ -208,8 +217,18 @@ def run_session(job):
             align_line_start(recs, 65536)
         cfgs = [("plain", "gfa"), ("bgzf", "gfa"), ("plain", "gz"), ("bgzf", "gz")]
         per = [battery(d, f"c{k}", nodes, links, recs, reads, gs, fs, block, "" if seed % 3 == 1 else "\n") for k, (gs, fs) in enumerate(cfgs)]
+        # late queries: after every configuration has been indexed and used, ask the first two again WITHOUT re-indexing
+        for k, (gs, fs) in enumerate(cfgs):
+            gaf = os.path.join(d, "in.gaf" + (".gz" if gs == "bgzf" else ""))
+            for qi, args in enumerate([["-n", "r1"], ["-r", "chr1:5-40"]]):
+                o = os.path.join(d, f"late{k}_{qi}")
+                r = run_cli(["view", gaf, "-o", o] + args)
+                per[k][f"lateview{qi}"] = {"status": r["status"] if r["status"] in ("ok", "exit") else r["status"] + ":" + r["exc"][:50],
+                                           "value": (open(o).read() if os.path.exists(o) else "") + f"|{r['status']}", "resolved": True}
+                if per[k][f"lateview{qi}"]["status"] == "exit":
+                    per[k][f"lateview{qi}"]["status"] = "ok"
         cases = []
-        nblocks = len(bgzf_blocks(os.path.join(d, "c1.gaf.gz")))
+        nblocks = len(bgzf_blocks(os.path.join(d, "in.gaf.gz")))
         for cmd in per[0]:
             cases.append({"id": f"{sid}.{cmd}", "cmd": cmd, "nblocks": nblocks,
                           "results": [dict(per[k].get(cmd, {"status": "missing", "value": "", "resolved": False}), cfg=f"{gs}_{fs}") for k, (gs, fs) in enumerate(cfgs)]})
